@@ -22,7 +22,12 @@ func draftSym(d int) Sx {
 	return Sym("d03")
 }
 
-func miEncodeRef(d int, rs int, payload []byte) ([]byte, string) {
+func miEncodeRef(d int, rs int, payload []byte) (out []byte, dgs string) {
+	defer func() {
+		if rec := recover(); rec != nil {
+			out, dgs = nil, "encoder-panicked"
+		}
+	}()
 	enc := mice.Draft03Encoding
 	if d == 0 {
 		enc = mice.Draft02Encoding
@@ -30,7 +35,7 @@ func miEncodeRef(d int, rs int, payload []byte) ([]byte, string) {
 	var buf bytes.Buffer
 	dg, err := enc.Encode(&buf, payload, rs)
 	if err != nil {
-		panic(err)
+		return nil, "encoder-error"
 	}
 	return buf.Bytes(), dg
 }
